@@ -165,6 +165,10 @@ func c05Gen(t *rapid.T) C05Case {
 	q := datagen.GenGrammarQuery(t, envInt("VERIF_C05_YEAR", 1) == 1)
 	layout := datagen.RapidLayout{T: t, Heavy: true, Comments: rapid.IntRange(0, 2).Draw(t, "comments") == 0, RawOK: true}
 	c := C05Case{Query: &q, Text: gen.Print(q, layout), Plain: gen.Print(q, gen.Plain{})}
+	// A comment that runs to the end of the text, a final line break: still the same query.
+	if rapid.IntRange(0, 9).Draw(t, "trailing-comment") == 0 {
+		c.Text += rapid.SampledFrom([]string{" # the end", "#", "\n# x", " # a\n# b", "\n", "\r\n", "\t"}).Draw(t, "ending")
+	}
 	// A long query: a leading comment pushes the text beyond one or two KiB (scanners read in
 	// 1024-byte chunks), mostly so that some word - by / without first of all - ends exactly on a
 	// chunk boundary.
